@@ -1,9 +1,12 @@
 (* C16 - regexes that match the empty string are rejected up front, and only those.
    Proved: the three guards fire exactly when the stored flag says "matches the zero-length
    string", that flag is the matcher's own answer on the empty input, and tokenize on the empty
-   input yields nothing.  Partial: "no reported match is zero-length when the guard passed" needs
-   the engine lemma E1 (a zero-length match anywhere implies one on the empty input). *)
-From RX Require Import Base.Prelude Model.Engine Model.Matcher Model.Compiler Model.Api Proofs.SmallFacts.
+   input yields nothing; and, on the fragment of EngineFacts without search shortcuts, the guard is
+   sufficient: a zero-length match anywhere implies a match of the empty input, so a program that
+   does not match the empty input never reports a zero-length match (the scan loops always consume
+   input).  Partial: that last clause for variable-length repeats, back-references and the
+   optimised search paths. *)
+From RX Require Import Base.Prelude Model.Op Model.Engine Model.Matcher Model.Compiler Model.Api Proofs.SmallFacts Proofs.EngineFacts Proofs.NullableFacts.
 
 Theorem C16_replace_guard :
   forall re s r, replace_all re s r = Err EMatchesEmpty <-> r_nullable re = true.
@@ -31,8 +34,20 @@ Example C16_ex :
   /\ (exists re, regex_new false true [97]%N [] = Ok re /\ r_nullable re = false).
 Proof. split; eexists; split; vm_compute; reflexivity. Qed.
 
+Theorem C16_no_zero_length_match_fragment_partial :
+  forall prog input,
+    simple input (p_case prog) (p_multi prog) (p_hasbackrefs prog) (p_maxparens prog) (p_op prog) ->
+    simple [] (p_case prog) (p_multi prog) (p_hasbackrefs prog) (p_maxparens prog) (p_op prog) ->
+    (p_hasbol prog = false /\ p_minlen prog = 0%N /\ p_prefix prog = None /\ p_icc prog = None /\ p_pre prog = []) ->
+    (forall s', matches prog [] 0 st0 <> MTrue s') ->
+    forall i s s', i <= length input -> length (sb s) = length (eb s) ->
+      matches prog input i s = MTrue s' ->
+      exists k q, i <= k /\ k < q /\ q <= length input /\ get_pend s' 0 = Some q.
+Proof. exact no_zero_length_match. Qed.
+
 Print Assumptions C16_replace_guard.
 Print Assumptions C16_analyze_guard.
 Print Assumptions C16_tokenize_guard.
 Print Assumptions C16_tokenize_empty_input.
 Print Assumptions C16_nullable_is_match_on_empty.
+Print Assumptions C16_no_zero_length_match_fragment_partial.
